@@ -201,11 +201,13 @@ def struct_op(c):
     return ops.Triangular(D, lower=c["lower"])
 
 
-def gen_dense(rnd, present, nmax):
+def gen_dense(rnd, present, nmax, force_pairs=False):
     """operators with a prescribed simple, well-separated spectrum; returns the case (matrix parts as arrays)"""
     g = L.nprng(rnd)
     cls = rnd.choice(["sa_def", "sa_indef", "sa_indef", "gen_real", "gen_real", "gen_cplx", "sa_cplx"])
     n = rnd.randint(2, nmax)
+    if force_pairs:
+        cls, n = "gen_real", max(n, 3)
     f32 = rnd.random() < 0.15
     if cls in ("sa_def", "sa_indef", "sa_cplx"):
         lam = np.array(L.separated(rnd, n, signs=(cls != "sa_def")))
@@ -220,7 +222,7 @@ def gen_dense(rnd, present, nmax):
         mags = L.separated(rnd, n)
         blocks, lam, i = [], [], 0
         while i < n:
-            if i + 1 < n and rnd.random() < 0.4:
+            if i + 1 < n and (rnd.random() < 0.4 or (force_pairs and i == 0)):
                 r, t = mags[i], rnd.uniform(0.3, 2.8)
                 blocks.append(r * np.array([[np.cos(t), -np.sin(t)], [np.sin(t), np.cos(t)]]))
                 lam += [r * np.exp(1j * t), r * np.exp(-1j * t)]
@@ -450,6 +452,7 @@ def run(ctx):
     terms, meta = [], []          # QI cases
     aterms = []                   # Auto-rule observations
     eigmaxmin_checked = [0]
+    galerkin_checked = [0]
     pterms, pmeta = [], []        # power-iteration cases (real)
     pcterms, pcmeta = [], []      # power-iteration cases (complex)
     hist = {}
@@ -530,10 +533,17 @@ def run(ctx):
     # ---------------- dense and Krylov rules: oracle, then slice
     n_dense = ctx.budget(260, 2500)
     nmax = ctx.budget(6, 9)
-    for _ in range(n_dense):
-        c = gen_dense(rnd, present, nmax)
+    n_arn = ctx.budget(40, 250)    # real non-symmetric operators with complex-conjugate pairs under Arnoldi
+    for it in range(n_dense + n_arn):
+        forced = it >= n_dense
+        c = gen_dense(rnd, present, nmax, force_pairs=forced)
         n = c["n"]
         alg = choose_alg(rnd, c, present)
+        if forced:
+            cap = rnd.choice(["at", "above", "default", "below"]) if "arnoldi_padding" not in present else "below"
+            mi = dict(below=max(2, n - 1), at=n, above=n + rnd.randint(1, 4), default=None)[cap]
+            alg = dict(cls="Arnoldi", kwargs=({} if mi is None else dict(max_iters=mi)), cap=cap)
+            c["wrap"] = "Dense"
         k = rnd.randint(1, n)
         which = rnd.choice(["LM", "SM"])
         eff = effective_alg(c, alg, k, which)
@@ -547,7 +557,7 @@ def run(ctx):
         m_cols = n
         if eff in ("Lanczos", "Arnoldi") and cap == "below":
             m_cols = alg["kwargs"]["max_iters"]
-            k = rnd.randint(1, m_cols)
+            k = m_cols if rnd.random() < 0.5 else rnd.randint(1, m_cols)
         try:
             A = dense_op(c)
             Dimpl = np.asarray(A.to_dense())
@@ -608,6 +618,13 @@ def run(ctx):
                 near_tie += 1
         else:
             below_n += 1
+            if k == ow.shape[0] and V.shape == (n, k) and np.linalg.matrix_rank(V) == k:
+                # all Ritz pairs were requested: Galerkin condition - the residual A V - V diag(w) is orthogonal to span(V)
+                Rr = D @ V - V * np.asarray(w)[None, :]
+                gal = float(np.abs(np.linalg.pinv(V) @ Rr).max())
+                if not (gal <= max(tol, 1e-7) * max(1.0, float(np.abs(D).max())) * max(1.0, float(np.linalg.cond(V)))):
+                    bad.append(f"Ritz pairs violate the Galerkin condition: |V^+ (A V - V diag w)| = {gal:.3g}")
+                galerkin_checked[0] += 1
         if bad:
             oracle_viol.append(len(meta))
         # Eigh/Eig slice arrays (bit-exact); the Krylov rules slice a lazy product Q @ P, whose columns are then recomputed by a
@@ -762,4 +779,4 @@ def run(ctx):
         samples=samples, mismatches=mism, findings=fnd,
         extra=dict(histogram=hist, near_tie=near_tie, skipped_spoiled_region=skipped_region, ritz_only_cases_below_n=below_n,
                    qi_cases=len(terms), power_cases=len(pterms) + len(pcterms), power_near_tie=len(pties),
-                   auto_rule_observations=len(aterms), eigmax_eigmin_checked=eigmaxmin_checked[0]))
+                   auto_rule_observations=len(aterms), eigmax_eigmin_checked=eigmaxmin_checked[0], ritz_galerkin_checked=galerkin_checked[0]))
